@@ -179,4 +179,19 @@ where distinctIds : List Nat → Bool
 def tplCheck (t : Tpl) : Except MuxErr Int :=
   muxCheck (t.ins.map (·.id)) (t.ins.map fun u => (u.asset, u.amount)) (t.outs.map fun o => (o.asset, o.amount))
 
+
+/-! ### witness materialization (blockchain/txbuilder: SignatureWitness.materialize and
+    RawTxSigWitness.materialize share this loop) -/
+
+/-- `Sigs` is indexed by KEY POSITION (slot i belongs to key i, empty = that key has not signed).
+    The loop `for i := 0; i < len(Sigs) && nsigs < Quorum; i++ { if len(Sigs[i]) > 0 { append; nsigs++ } }`
+    takes the first `quorum` NON-EMPTY slots, in key order. -/
+def materializeSigs : Nat → List (List UInt8) → List (List UInt8)
+  | 0, _ => []
+  | _ + 1, [] => []
+  | q + 1, s :: rest => if s.isEmpty then materializeSigs (q + 1) rest else s :: materializeSigs q rest
+
+/-- `signedCount` / `SignProgress`: the number of non-empty slots reaches the quorum -/
+def signedCount (slots : List (List UInt8)) : Nat := (slots.filter (fun s => !s.isEmpty)).length
+
 end BytomModel.Model.Builder
